@@ -42,6 +42,7 @@ structure St where
   hp : Heap.Heap := Heap.init
   pri : Store := Store.empty
   inHeap : Store := Store.empty
+  hpFail : Bool := false            -- `hp fail`: the heap's next allocator request returns NULL
   -- lists
   dl : DList.DL := DList.listInit (DList.listInit (DList.listInit (DList.listInit DList.empty 1) 2) 3) 4
   dkey : Store := Store.empty
@@ -174,9 +175,15 @@ def hpStep (s : St) (w : List String) : St × String :=
     | some id, some p =>
       if id = 0 || id ≥ 4096 || s.inHeap.get id ≠ 0 then (s, "bad-op") else
       let pri := s.pri.set id p
-      let s := { s with pri := pri, inHeap := s.inHeap.set id 1, hp := Heap.push (hpBetter pri) s.hp id }
-      (s, "1" ++ hpTail s)
+      let allocs := decide (s.hp.used ≥ s.hp.allocated)
+      let r := Heap.pushO (!s.hpFail) (hpBetter pri) s.hp id
+      let s := { s with pri := pri, inHeap := s.inHeap.set id (if r.2 then 1 else 0), hp := r.1,
+                        hpFail := s.hpFail && !allocs }
+      (s, (if r.2 then "1" else "0") ++ hpTail s)
     | _, _ => (s, "bad-op")
+  | ["fail"] =>
+    let s := { s with hpFail := true }
+    (s, "ok" ++ hpTail s)
   | ["pop"] =>
     let r := Heap.pop better s.hp
     if r.2 = 0 then (s, "null" ++ hpTail s) else
@@ -204,8 +211,10 @@ def hpStep (s : St) (w : List String) : St × String :=
     match e.pn with
     | some e =>
       if e > 100000 then (s, "bad-op") else
-      let s := { s with hp := Heap.reserve s.hp e }
-      (s, "1" ++ hpTail s)
+      let allocs := Heap.reserveAllocs s.hp e
+      let r := Heap.reserveO (!s.hpFail) s.hp e
+      let s := { s with hp := r.1, hpFail := s.hpFail && !allocs }
+      (s, (if r.2 then "1" else "0") ++ hpTail s)
     | none => (s, "bad-op")
   | ["dump"] =>
     let ids := Heap.toList s.hp
